@@ -61,6 +61,20 @@ func (env *rEnv) typeOf(n *rNode) types.Type {
 				}
 			}
 		}
+		if n.Text == "cbret" && len(n.Args) == 1 {
+			if idx, ok := constIndex(env.eval(n.Args[0])); ok {
+				for i := len(env.post.trace) - 1; i >= 0; i-- {
+					if ev := env.post.trace[i]; ev.Kind == "callback" && ev.Typ != nil {
+						if tt, ok := ev.Typ.(*types.Tuple); ok && idx < tt.Len() {
+							return tt.At(idx).Type()
+						}
+						if idx == 0 {
+							return ev.Typ
+						}
+					}
+				}
+			}
+		}
 		if n.Text == "callretval" && len(n.Args) == 2 && n.Args[0].Op == "str" {
 			if idx, ok := constIndex(env.eval(n.Args[1])); ok {
 				if fn := env.e.findByShort(n.Args[0].Text); fn != nil && idx < fn.Signature.Results().Len() {
@@ -758,6 +772,9 @@ func (env *rEnv) call(n *rNode) Value {
 	case "listnil":
 		v := env.eval(n.Args[0])
 		return sym(e.isNilTerm(env.st(), v))
+	case "leftloopearly":
+		// the path entered the body of a loop (under the cut-point rule) and left it other than through the back edge
+		return sym(BoolLit(env.post.bodyEntered))
 	case "collid":
 		return sym(App(SInt, "collid", argT(0), argT(1)))
 	case "b2i":
